@@ -27,7 +27,7 @@ DtsWhy(r) ==
   ELSE LET d == Dev_UnicodeBytes(r.c) IN
        IF ~d.err /\ ~r.o.err /\ DtsObsOf(d) = [err |-> r.o.err, key |-> r.o.key, names |-> r.o.names, struct |-> r.o.struct]
           /\ d.enumreq \subseteq ToSet(r.o.enums) /\ ToSet(r.o.enums) \subseteq d.enumall
-       THEN "D-X08-1: dtype_to_struct declares a unicode column with its size in bytes"
+       THEN "dtype_to_struct result (what the fixed D-X08-1 did: a unicode column declared with its size in bytes)"
        ELSE "dtype_to_struct result"
 
 (* ---- accessors: the observation has the shape of Accessors(text); open parts are not judged ---- *)
@@ -36,39 +36,44 @@ ClenOK(e, o) == e.k = "open" \/ (o.k = e.k /\ o.n = e.n)
 DtOK(e, o) == /\ o.kind = e.kind /\ o.shape = e.shape
               /\ (IF e.wmin THEN o.w >= e.w ELSE IF e.kind = "S" /\ e.w = 0 THEN o.w \in {0, 1} ELSE o.w = e.w)
 B(b) == IF b THEN "T" ELSE "F"          \* booleans are recorded as "T" / "F" (a failed call as a marker text)
-ColWhy(e, o) ==
-  IF o.name # e.name THEN "columns"
-  ELSE IF o.type # e.type THEN "type"
-  ELSE IF o.base # e.base THEN "basetype"
-  ELSE IF o.isarray # B(e.isarray) THEN "isarray"
-  ELSE IF o.isenum # B(e.isenum) THEN "isenum"
-  ELSE IF o.alen # e.alen THEN "array_length"
-  ELSE IF ~ClenOK(e.clen, o.clen) THEN "char_length" ELSE ""
-TabWhy(e, o) ==
-  IF o.name # e.name THEN "tables"
-  ELSE IF o.columns # e.columns \/ Len(o.cols) # Len(e.cols) THEN "columns"
-  ELSE IF o.size # e.size THEN "size"
-  ELSE LET bad == SelectInSeq([ci \in 1..Len(e.cols) |-> ColWhy(e.cols[ci], o.cols[ci])], LAMBDA w : w # "")
-           dtopen == \E ci \in 1..Len(e.cols) : e.cols[ci].dt.open
-       IN IF bad > 0 THEN ColWhy(e.cols[bad], o.cols[bad])
-          ELSE IF ~dtopen /\ \E ci \in 1..Len(e.cols) : ~DtOK(e.cols[ci].dt, o.cols[ci].dt) THEN "dtype" ELSE ""
+(* every differing part, as the set of accessor names (the first one, by the order below, is reported) *)
+ColWhys(e, o) ==
+  IF o.name # e.name THEN {"columns"}
+  ELSE (IF o.type # e.type THEN {"type"} ELSE {}) \cup (IF o.base # e.base THEN {"basetype"} ELSE {})
+       \cup (IF o.isarray # B(e.isarray) THEN {"isarray"} ELSE {}) \cup (IF o.isenum # B(e.isenum) THEN {"isenum"} ELSE {})
+       \cup (IF o.alen # e.alen THEN {"array_length"} ELSE {}) \cup (IF ~ClenOK(e.clen, o.clen) THEN {"char_length"} ELSE {})
+TabWhys(e, o) ==
+  IF o.name # e.name THEN {"tables"}
+  ELSE IF o.columns # e.columns \/ Len(o.cols) # Len(e.cols) THEN {"columns"}
+  ELSE (IF o.size # e.size THEN {"size"} ELSE {})
+       \cup UNION {ColWhys(e.cols[ci], o.cols[ci]) : ci \in 1..Len(e.cols)}
+       \cup (IF (\A ci \in 1..Len(e.cols) : ~e.cols[ci].dt.open) /\ \E ci \in 1..Len(e.cols) : ~DtOK(e.cols[ci].dt, o.cols[ci].dt)
+             THEN {"dtype"} ELSE {})
 CannotRead == "object could not be read or inspected"
-AccWhy0(e, o) ==
-  IF o.fail # "" THEN CannotRead
-  ELSE IF o.tables # e.tables \/ Len(o.tabs) # Len(e.tabs) THEN "tables"
-  ELSE IF o.pairs # e.pairs THEN "pairs"
-  ELSE IF o.undef # e.undef THEN "type of an undefined name"
-  ELSE LET bad == SelectInSeq([ti \in 1..Len(e.tabs) |-> TabWhy(e.tabs[ti], o.tabs[ti])], LAMBDA w : w # "")
-       IN IF bad > 0 THEN TabWhy(e.tabs[bad], o.tabs[bad]) ELSE ""
+AccWhys(e, o) ==
+  IF o.fail # "" THEN {CannotRead}
+  ELSE IF o.tables # e.tables \/ Len(o.tabs) # Len(e.tabs) THEN {"tables"}
+  ELSE (IF o.pairs # e.pairs THEN {"pairs"} ELSE {}) \cup (IF o.undef # e.undef THEN {"type of an undefined name"} ELSE {})
+       \cup UNION {TabWhys(e.tabs[ti], o.tabs[ti]) : ti \in 1..Len(e.tabs)}
+WhyOrder == <<CannotRead, "tables", "pairs", "type of an undefined name", "columns", "size", "type", "basetype", "isarray", "isenum",
+              "array_length", "char_length", "dtype">>
+FirstWhy(W) == WhyOrder[CHOOSE k \in 1..Len(WhyOrder) : WhyOrder[k] \in W /\ \A j \in 1..(k - 1) : WhyOrder[j] \notin W]
+(* What each still-known deviation produces.  The fixed D-X08-1 / D-X08-2 explain nothing: a text with a ';' in a typedef *)
+(* comment must now be read like any other.  The smallest set of deviations present in the text that accounts for every   *)
+(* differing part is named (its first id leads the verdict).                                                               *)
+ExplBrace == {"tables", CannotRead}                                                   \* D-X08-3: the structure is lost
+ExplCharName == {"isarray", "array_length", "char_length", "dtype", CannotRead}       \* D-X08-4
+ExplEmptyAuto == {"dtype", CannotRead}                                                \* D-X08-5
 AccWhy(r) ==
   LET e == Accessors(r.text)
-      w == AccWhy0(e, r.o)
-  IN IF w = "" THEN ""
-     ELSE IF e.notes.brace THEN "D-X08-3: " \o w
-     ELSE IF e.notes.semicolon THEN "D-X08-2: " \o w
-     ELSE IF e.notes.charname /\ w \in {"isarray", "array_length", "char_length", "dtype", CannotRead} THEN "D-X08-4: " \o w
-     ELSE IF e.notes.emptyauto /\ w \in {"dtype", CannotRead} THEN "D-X08-5: " \o w
-     ELSE w
+      W == AccWhys(e, r.o)
+  IN IF W = {} THEN ""
+     ELSE LET w == FirstWhy(W) IN
+          IF e.notes.brace /\ W \subseteq ExplBrace THEN "D-X08-3: " \o w
+          ELSE IF e.notes.charname /\ W \subseteq ExplCharName THEN "D-X08-4: " \o w
+          ELSE IF e.notes.emptyauto /\ W \subseteq ExplEmptyAuto THEN "D-X08-5: " \o w
+          ELSE IF e.notes.brace /\ e.notes.charname /\ W \subseteq (ExplBrace \cup ExplCharName) THEN "D-X08-3: (with D-X08-4) " \o w
+          ELSE w
 
 ConvOneOK(e, o) ==
   e.k = "open" \/ (o.k = e.k /\ (e.k = "int" => o.i = e.i) /\ (e.k = "rat" => o.q = e.q) /\ (e.k = "str" => o.s = e.s))
